@@ -399,7 +399,58 @@ func checkC05(c *Ctx) {
 		})
 		isArm := func(x ssa.Instruction) bool {
 			cc := callOf(x)
-			return cc != nil && cc.IsInvoke() && cc.Method.Name() == m.deadline
+			if cc == nil {
+				return false
+			}
+			if cc.IsInvoke() && cc.Method.Name() == m.deadline {
+				return true
+			}
+			// an arming helper: it is handed the deadline setter as a method expression and calls it on every path on
+			// which its timeout parameter is positive
+			g := calleeFn(cc)
+			if g == nil || !isModFn(g) || g.Blocks == nil {
+				return false
+			}
+			setterIdx := -1
+			for i, a := range cc.Args {
+				if fv := funcValue(a); fv != nil && strings.Contains(fv.Name(), m.deadline) {
+					setterIdx = i
+				}
+			}
+			if setterIdx < 0 || setterIdx >= len(g.Params) {
+				return false
+			}
+			setter := g.Params[setterIdx]
+			gz := map[*ssa.BasicBlock]int{}
+			eachInstr(g, func(_ *ssa.BasicBlock, _ int, in ssa.Instruction) {
+				bo, ok := in.(*ssa.BinOp)
+				if !ok {
+					return
+				}
+				k, isC := constInt(bo.Y)
+				if _, isPrm := bo.X.(*ssa.Parameter); !isC || k != 0 || !isPrm {
+					return
+				}
+				for _, r := range *bo.Referrers() {
+					if iff, ok := r.(*ssa.If); ok {
+						switch bo.Op {
+						case token.GTR, token.NEQ:
+							gz[iff.Block()] = 1
+						case token.LEQ, token.EQL:
+							gz[iff.Block()] = 0
+						}
+					}
+				}
+			})
+			return findPath(entryPos(g), pathQuery{target: isReturn, avoid: func(y ssa.Instruction) bool {
+				c2 := callOf(y)
+				return c2 != nil && c2.Value == ssa.Value(setter)
+			}, edge: func(b *ssa.BasicBlock, k int) bool {
+				if z, ok := gz[b]; ok && z == k {
+					return false
+				}
+				return true
+			}}) == nil
 		}
 		path := findPath(entryPos(fn), pathQuery{
 			target: func(x ssa.Instruction) bool { return x == ssa.Instruction(under) },
